@@ -46,7 +46,7 @@ func c01Child(scPath string) int {
 		return 0
 	}
 	pr.org = org
-	site := &genSite{o: org, port: org.Port, rng: pipeRand(sc.Seed, "site", sc.Index)}
+	site := &genSite{o: org, port: org.Port, rng: pipeRand(sc.Seed, "site", sc.Index), maxRedirect: sc.Cfg.MaxRedirect}
 	site.build(sc.NSeeds, sc.NHubs)
 	if err := pr.applyConfig(site.Hubs); err != nil {
 		rep.violation("harness/config", err.Error(), nil)
@@ -151,6 +151,22 @@ func c01Child(scPath string) int {
 		}
 	}
 	if verdict == "quiescent" {
+		// every URL that belongs to a tree (planted requisite of a document that was delivered in full,
+		// target of a delivered redirect) must have been requested at least once in the run: fetched,
+		// or legitimately skipped because an earlier fetch in this job recorded it
+		olog := org.snapshot()
+		requested := map[string]bool{}
+		for _, l := range olog {
+			requested[l.URL] = true
+		}
+		for _, l := range olog {
+			for _, u := range l.Expect {
+				rep.event("tree_urls_expected", 1)
+				if !requested[u] {
+					rep.violation("tree-url-never-requested/"+l.Tag, fmt.Sprintf("%s (%s, status %d) was delivered in full and puts %s into its seed's tree, but that URL was never requested although every seed is reported finished", l.URL, l.Tag, l.Status, u), map[string]any{"from": l, "missing": u})
+				}
+			}
+		}
 		if t := reactor.GetStateTable(); len(t) != 0 || reactor.VerifTokensInUse() != 0 {
 			rep.violation("reactor-not-empty-at-quiescence", fmt.Sprintf("state table %v, tokens in use %d", t, reactor.VerifTokensInUse()), nil)
 		}
